@@ -119,6 +119,18 @@ Proof. reflexivity. Qed.
 Lemma legacy_arities_generated : gen_legacy_arities = [(1, 1); (1, 2); (2, 1)]%nat.
 Proof. reflexivity. Qed.
 
+(* ---- pair-or-broadcast decision of the binary product-space wrapper ---- *)
+From Verif Require Import C17.Legacy.
+Definition pair_of {T} (c : paircond) (t : @ptree T) (a : @arg2 T) : bool :=
+  match c, a with
+  | PairIfInSpace, A2Tree u => sig_eqb t u          (* x2 in self.elem.space *)
+  | PairIfSameType, A2Tree (PNode _) => true        (* isinstance(x2, type(self.elem)) *)
+  | _, _ => false
+  end.
+Lemma pair_decision_generated (T : Type) (t : @ptree T) (a : @arg2 T) :
+  pair_decision t a = pair_of gen_pair_cond t a.
+Proof. destruct a; reflexivity. Qed.
+
 (* combined statements as used in Props.v *)
 Lemma out_count_guard_generated (m : meth) (nout n : nat) :
   len_ok m nout n = negb (gen_len_bad_tens (is_call m) nout n)
